@@ -37,6 +37,8 @@ EDITS_QUICK = [
     ("rem", "foo"),
     ("rem", "kfoo"),
     ("def", "foo", 2.0, "m", True),
+    ("modself", "foo", 2.0),
+    ("modself", "s", 2.0),
 ]
 EDITS_THOROUGH = EDITS_QUICK + [
     ("add", "foo", 2.0, "length", False),
@@ -55,6 +57,7 @@ SEEDS_QUICK = [
     ("conv", "foo", "m"),
     ("keep", "foo"),
     ("keep", "kfoo"),
+    ("keepcopy", "foo"),
     ("div", "foo", "bar"),
     ("simp", "foo*s/bar"),
 ]
@@ -69,7 +72,7 @@ SEEDS_THOROUGH = SEEDS_QUICK + [
     ("contains", "kfoo"),
     ("getitem", "Mfoo"),
 ]
-PROBES = ["foo", "kfoo", "Mfoo", "foo/s", "foo**2", "kfoo*bar", "bar", "kbar", "m/foo", "ufoo", "m", "km", "kkfoo", "Mkfoo", "kkm", "mkbar"]
+PROBES = ["foo", "kfoo", "Mfoo", "foo/s", "foo**2", "kfoo*bar", "bar", "kbar", "m/foo", "ufoo", "m", "km", "kkfoo", "Mkfoo", "kkm", "mkbar", "s", "m/s", "ms"]
 ARR_PROGS = [
     ("mul", "foo", "foo"),
     ("mul", "kfoo", "bar"),
@@ -95,7 +98,7 @@ POPULATED = (("add", "foo", 2.0, "length", True), ("add", "bar", 5.0, "length", 
 
 
 def is_edit(ev):
-    return ev[0] in ("add", "modf", "modq", "rem", "def")
+    return ev[0] in ("add", "modf", "modq", "rem", "def", "modself")
 
 
 # ---- reference model of the registry contents -----------------------------------------------------
@@ -150,6 +153,17 @@ def ref_apply(T, ev):
             return "raise"
         sc, dn = UNIT_SI[u]
         T[sym] = (v * sc, RDIMS[dn], T[sym][2])
+        return "ok"
+    if k == "modself":
+        # modify(sym, quantity expressed in sym itself, in the same registry): the new value is factor x the current one
+        _, sym, factor = ev
+        cur = T.get(sym)
+        if cur is None:
+            d = default_ref().get(sym)
+            if d is None:
+                return "raise"
+            cur = (d[0], d[1], d[3])
+        T[sym] = (cur[0] * factor, cur[1], cur[2])
         return "ok"
     if k == "rem":
         _, sym = ev
@@ -231,6 +245,8 @@ def apply_event(w, ev):
             r.modify(ev[1], ev[2])
         elif k == "modq":
             r.modify(ev[1], unyt.unyt_quantity(ev[2], ev[3]))
+        elif k == "modself":
+            r.modify(ev[1], unyt.unyt_quantity(ev[2], ev[1], registry=r))
         elif k == "rem":
             r.remove(ev[1])
         elif k == "def":
@@ -240,6 +256,9 @@ def apply_event(w, ev):
         elif k == "keep":
             u = Unit(ev[1], registry=r)
             w.kept.append((ev[1], u, world.unit_digest(u)))
+        elif k == "keepcopy":
+            u = Unit(ev[1], registry=r)
+            w.kept_copies.append((u * u).copy())  # the copy is bound to a shallow copy of the registry (same table)
         elif k == "contains":
             ev[1] in r
         elif k == "getitem":
@@ -304,6 +323,7 @@ class System:
         w.r = UnitRegistry()
         w.T = {}
         w.kept = []
+        w.kept_copies = []
         w.log = []
         w.edit_results = []
         for ev in self.prefix + tuple(hist):
@@ -333,6 +353,8 @@ class System:
         evs = []
         for ev in self.edits:
             k = ev[0]
+            if ev == ("modself", "s", 2.0) and ev in hist:
+                continue  # once per history: a second rescaling of a base symbol by itself is ill-defined in the library
             if k in ("modf", "modq", "rem") and ev[1] not in w.T:
                 # edits of symbols that are not user content are only exercised once (must raise)
                 if len(hist) > 0:
@@ -368,6 +390,25 @@ class System:
         # default registry untouched
         if world.lut_delta(world.D.lut) or not world.default_table_intact():
             ctx.violation("C12|default|mode=default-registry-written", case, None, world.lut_delta(world.D.lut))
+        # the memoised registry id must not survive an edit (hash(Unit) and the process-wide unit-rule caches depend on it)
+        if hist and is_edit(hist[-1]) and w.log[-1] == "ok" and w.r._unit_system_id is not None:
+            memo = w.r._unit_system_id
+            w.r._unit_system_id = None
+            fresh = w.r.unit_system_id
+            if memo != fresh:
+                ctx.violation(f"C12|id|edit={hist[-1][0]}|mode=registry-id-not-refreshed-by-edit", case, fresh, memo)
+        # objects bound to a shallow copy of the registry (Unit.copy()) share its table: the edit must reach them too
+        for ku in w.kept_copies:
+            for s in ("foo", "kfoo", "foo/s"):
+                a = resolve_real(ku.registry, s)
+                b = resolve_ref(w.T, s)
+                if not same(a, b) and same(resolve_real(w.r, s), b):
+                    ctx.violation(
+                        f"C12|kept-copy|probe={_pclass(s)}|edit={info['last_edit'].get(_base(s), 'none')}|mode=edit-not-seen-through-copied-unit's-registry",
+                        {"history": case["history"], "prefix": case["prefix"], "probe": s},
+                        b,
+                        a,
+                    )
         warm = [resolve_real(w.r, s) for s in PROBES]
         rp = cold_registry(w.T)  # only ever used to read printed units back
         warm_arr = [run_prog(w.r, p, rp) for p in ARR_PROGS]
